@@ -48,6 +48,8 @@ def main(argv):
                 drv.run_case(case, rec)
         except core.CaseTimeout:
             rec.count("case_timeouts")
+            lab = {k: (v.get("name") if isinstance(v, dict) else v) for k, v in case.items() if k in ("desc", "repr", "decider", "via", "offset", "kind", "seed", "alg")} if isinstance(case, dict) else str(case)[:80]
+            rec.set_add("timed_out_cases", lab)
             if hasattr(drv, "on_timeout"):
                 drv.on_timeout(case, rec)
         except BaseException as e:  # harness bug or unexpected library behaviour outside a monitor
